@@ -38,7 +38,7 @@ class C06(Check):
         'joint_result_copies_aggregates': 'the multi-series result carries every aggregate field of the combined run unchanged',
     }
     stubs = ['statistics/optimise phases summarised: per cluster and round an arbitrary (symbolic, diagonally dominant hence positive definite) MRF with an arbitrary ln det symbol; data and cluster means are fixed distinct patterns so that every obligation is linear arithmetic',
-             'relabel phase, kernel, likelihood kernels, result assembly: real', 'slogdet/det -> opaque ln det symbol per matrix (same stub serves code and specification)',
+             'relabel phase, kernel, likelihood kernels, result assembly and repopulation: real (spread ranking and random draw symbolic)', 'slogdet/det -> opaque ln det symbol per matrix (same stub serves code and specification)',
              'metrics summarised; stub pool; initial labels fixed pattern']
     assumptions = ['REAL arithmetic; LOG uninterpreted']
     outside_claim = ['T, K, n beyond bounds; rounding']
@@ -68,12 +68,24 @@ class C06(Check):
     def _run(self, c, call, K, n, lim):
         Rp = self.R
         self.ld = logdet.OpaqueLogDet(c)
-        stubs.install_linalg(det=self.ld.det, slogdet=self.ld.slogdet, inv=stubs.inv_uninterpreted)
-        ml = MainLoop(Rp, c, K, n, modes={'relabel': 'real', 'point_ll': 'real', 'initial': 'summary'},
+        stubs.install_linalg(det=self.ld.det, slogdet=self.ld.slogdet, inv=stubs.inv_uninterpreted,
+                             norm=stubs.NormOracle('spread'))
+        # repopulation is real (min_cluster_size 1, any spread ranking, any draw): a run may go through
+        # repopulation events, and one that ends with an under-populated cluster must not be touched again
+        ml = MainLoop(Rp, c, K, n, modes={'relabel': 'real', 'point_ll': 'real', 'initial': 'summary',
+                                          'repopulate': 'real'},
                       spd='dominant', concrete_mean=mean_pattern)
         ml.s_initial = lambda k, d: [i % K for i in range(len(d))]
-        with ml:
-            ok, res = guarded(c, 'one_likelihood_entry_per_labelled_point', call)
+        old_random = Rp.cm.random
+        Rp.cm.random = stubs.StubRandom()
+        try:
+            with ml:
+                try:
+                    ok, res = guarded(c, 'one_likelihood_entry_per_labelled_point', call, _allow=(RuntimeError,))
+                except RuntimeError:
+                    raise core.PathAbort()          # no donor: the run does not complete (C20's subject)
+        finally:
+            Rp.cm.random = old_random
         return ok, res, ml
 
     def _judge(self, c, res, ml, data, K, n, beta_pairs, T):
